@@ -668,11 +668,11 @@ Proof.
     constructor; [exists m, e; reflexivity | eapply IH; reflexivity].
 Qed.
 
-Lemma gather_stack_value : forall chunks res em,
-  R_gather_stack chunks = Some (res, Some em) ->
+Lemma gather_stack_value : forall b chunks res em,
+  R_gather_stack b chunks = Some (res, Some em) ->
   map (fun km => (fst km, R_mscale_r (snd km) (pow10 em))) res = map kvalue chunks.
 Proof.
-  intros chunks res em H. unfold R_gather_stack, gather_stack in H.
+  intros b chunks res em H. unfold R_gather_stack, gather_stack in H.
   destruct chunks as [|[k0 c0] chunks0] eqn:EC; [discriminate|].
   destruct c0 as [m0|m0 e0].
   - destruct (forallb _ _); discriminate.
@@ -688,10 +688,10 @@ Proof.
     rewrite R_mscale_r_mul, pow10_diff. reflexivity.
 Qed.
 
-Lemma gather_stack_plain : forall chunks res,
-  R_gather_stack chunks = Some (res, None) -> res = map kvalue chunks.
+Lemma gather_stack_plain : forall b chunks res,
+  R_gather_stack b chunks = Some (res, None) -> res = map kvalue chunks.
 Proof.
-  intros chunks res H. unfold R_gather_stack, gather_stack in H.
+  intros b chunks res H. unfold R_gather_stack, gather_stack in H.
   destruct chunks as [|[k0 c0] chunks0] eqn:EC; [discriminate|].
   destruct c0 as [m0|m0 e0].
   - rewrite <- EC in *.
@@ -738,11 +738,11 @@ Proof.
   intros x H. rewrite <- pow10_0. unfold pow10. apply Rle_Rpower; lra.
 Qed.
 
-Lemma stack_factors_le_1 : forall chunks res em k m e,
-  R_gather_stack chunks = Some (res, Some em) -> In (k, Strip m e) chunks ->
+Lemma stack_factors_le_1 : forall b chunks res em k m e,
+  R_gather_stack b chunks = Some (res, Some em) -> In (k, Strip m e) chunks ->
   e <= em /\ pow10 (e - em) <= 1.
 Proof.
-  intros chunks res em k m e H Hin. unfold R_gather_stack, gather_stack in H.
+  intros b chunks res em k m e H Hin. unfold R_gather_stack, gather_stack in H.
   destruct chunks as [|[k0 c0] chunks0] eqn:EC; [discriminate|].
   destruct c0 as [m0|m0 e0].
   - destruct (forallb _ _); discriminate.
